@@ -1309,6 +1309,49 @@ func stopFacts(f *facts) {
 		}
 	}
 	f.strs["stop_io_deadlines"] = dl
+	f.note["stop_resend_collects_previous"] = "resendLeftovers: every exit that ends the session passes the not-yet-resent leftovers to collectLeftovers"
+	var rc []string
+	if fd := fn(sess, "resendLeftovers", "clientSession"); fd != nil {
+		inspect(fd.Body, func(x ast.Node) bool {
+			if c, ok := x.(*ast.CallExpr); ok && strings.HasSuffix(src(c.Fun), "collectLeftovers") {
+				rc = append(rc, "collectLeftovers("+src(c.Args[0])+", "+src(c.Args[1])+")")
+			}
+			if c, ok := x.(*ast.CallExpr); ok && strings.Contains(src(c.Fun), "endSession") {
+				rc = append(rc, src(c))
+			}
+			return true
+		})
+	}
+	f.strs["stop_resend_collects_previous"] = rc
+	f.note["stop_listener_closers"] = "tcplinelistener.go: goroutines that close the listening socket / a connection when the stop request (or an abort) fires"
+	var lc []string
+	for _, name := range []string{"run", "launchConnectionCloser"} {
+		if fd := fn("input/tcplistener/tcplinelistener.go", name, "tcpLineListener"); fd != nil {
+			inspect(fd.Body, func(x ast.Node) bool {
+				if g, ok := x.(*ast.GoStmt); ok {
+					t := src(g.Call)
+					var aw, cl string
+					inspect(g.Call, func(y ast.Node) bool {
+						if c, ok := y.(*ast.CallExpr); ok {
+							if src(c.Fun) == "channels.AnyAwaitables" && len(c.Args) == 2 {
+								aw = "AnyAwaitables(" + src(c.Args[0]) + ", " + src(c.Args[1]) + ")"
+							}
+							if strings.HasSuffix(src(c.Fun), ".Close") && (strings.Contains(src(c.Fun), "socket") || strings.Contains(src(c.Fun), "conn")) {
+								cl = strings.TrimPrefix(src(c.Fun), "listener.")
+							}
+						}
+						return true
+					})
+					_ = t
+					if aw != "" && cl != "" {
+						lc = append(lc, name+": "+aw+" -> "+cl)
+					}
+				}
+				return true
+			})
+		}
+	}
+	f.strs["stop_listener_closers"] = lc
 	f.note["metric_client_sites"] = "where the client counts forwarding / forwarded / acknowledged"
 	var cs []string
 	if fd := fn(sess, "sendChunk", "clientSession"); fd != nil {
